@@ -67,17 +67,25 @@ structure Cross where
   pt : Pt
   t : Rat
 
-/-- the loop over the polygon's edges, with the dict `ind` (first insertion keeps its place) -/
-def crossings (poly : Poly) (a b : Pt) : List Cross :=
-  (edges poly).foldl (fun acc e =>
-    let dp := Pt.sub e.2 e.1
-    match solve2 dp (Pt.sub a b) (Pt.sub a e.1) with
-    | none => acc
-    | some (xi0, xi1) =>
-      if (-lpiTol ≤ xi0 && xi0 ≤ 1 + lpiTol) && (-lpiTol ≤ xi1 && xi1 ≤ 1 + lpiTol) then
-        let c : Pt := (e.1.1 + xi0 * dp.1, e.1.2 + xi0 * dp.2)
-        if acc.any (fun x => x.pt == c) then acc else acc ++ [⟨c, xi1⟩]
-      else acc) []
+/-- the body of the loop of `line_polygon_intersections` for one edge: the crossing it adds to the
+    dict `ind`, if any (`xi[0]` along the edge and `xi[1]` along the line both in `[-tol, 1+tol]`) -/
+def edgeCross (a b : Pt) (e : Pt × Pt) : Option Cross :=
+  let dp := Pt.sub e.2 e.1
+  match solve2 dp (Pt.sub a b) (Pt.sub a e.1) with
+  | none => none
+  | some (xi0, xi1) =>
+    if (-lpiTol ≤ xi0 && xi0 ≤ 1 + lpiTol) && (-lpiTol ≤ xi1 && xi1 ≤ 1 + lpiTol) then
+      some ⟨(e.1.1 + xi0 * dp.1, e.1.2 + xi0 * dp.2), xi1⟩
+    else none
+
+/-- `ind[c] = i`: a key already present keeps its place -/
+def crossStep (a b : Pt) (acc : List Cross) (e : Pt × Pt) : List Cross :=
+  match edgeCross a b e with
+  | none => acc
+  | some c => if acc.any (fun x => x.pt == c.pt) then acc else acc ++ [c]
+
+/-- the loop over the polygon's edges -/
+def crossings (poly : Poly) (a b : Pt) : List Cross := (edges poly).foldl (crossStep a b) []
 
 /-- squared longest side of a polygon (`max(side_lengths)²`) -/
 def maxSideSq (poly : Poly) : Rat := ((edges poly).map fun e => distSq e.1 e.2).foldl max 0
@@ -94,27 +102,30 @@ def insertUnique (k : Nat) (i : Nat) : List (Nat × Nat) → List (Nat × Nat)
   | [] => [(k, i)]
   | (k', i') :: r => if k < k' then (k, i) :: (k', i') :: r else if k = k' then (k', i') :: r else (k', i') :: insertUnique k i r
 
-def linePolygonIntersectionsT (poly : Poly) (a b : Pt) : Out (List Cross) :=
-  let cs := crossings poly a b
-  match cs with
-  | [] => .ok []
-  | c0 :: _ =>
-    let L2 := distSq a b
-    let S2 := maxSideSq poly
-    let tmin := (cs.map fun c => c.t.abs).foldl min c0.t.abs
-    -- (1000 · d)² for the non-dimensionalised d of each crossing
-    let D := fun (c : Cross) =>
-      if S2 > 0 then (c.t.abs - tmin) * (c.t.abs - tmin) * L2 / S2 * 1000000
-      else c.t.abs * c.t.abs * L2 * 1000000
-    let rec go (i : Nat) (l : List Cross) (acc : List (Nat × Nat)) : Out (List (Nat × Nat)) :=
-      match l with
-      | [] => .ok acc
-      | c :: r => match roundSqrt (D c) with
-        | .ok k => go (i + 1) r (insertUnique k i acc)
-        | .unstable w => .unstable w
-    match go 0 cs [] with
+/-- smallest `|xi[1]|` of the crossings (`min(d)` up to the factor ‖line‖) -/
+def tMin (c0 : Cross) (cs : List Cross) : Rat := (cs.map fun c => c.t.abs).foldl min c0.t.abs
+
+/-- `(1000 · d)²` for the non-dimensionalised distance `d = (‖c − line[0]‖ − min) / scale` of a
+    crossing (`scale` = longest side of the polygon; not scaled when that is 0) -/
+def nondimSq (L2 S2 tmin : Rat) (c : Cross) : Rat :=
+  if S2 > 0 then (c.t.abs - tmin) * (c.t.abs - tmin) * L2 / S2 * 1000000
+  else c.t.abs * c.t.abs * L2 * 1000000
+
+/-- `d.round(decimals = 3)` and `np.unique(d, return_index = True)` over the crossings -/
+def roundAll (D : Cross → Rat) : Nat → List Cross → List (Nat × Nat) → Out (List (Nat × Nat))
+  | _, [], acc => .ok acc
+  | i, c :: r, acc =>
+    match roundSqrt (D c) with
+    | .ok k => roundAll D (i + 1) r (insertUnique k i acc)
     | .unstable w => .unstable w
-    | .ok uniq => .ok (uniq.filterMap fun ki => cs[ki.2]?)
+
+def linePolygonIntersectionsT (poly : Poly) (a b : Pt) : Out (List Cross) :=
+  match crossings poly a b with
+  | [] => .ok []
+  | c0 :: cs =>
+    match roundAll (nondimSq (distSq a b) (maxSideSq poly) (tMin c0 (c0 :: cs))) 0 (c0 :: cs) [] with
+    | .unstable w => .unstable w
+    | .ok uniq => .ok (uniq.filterMap fun ki => (c0 :: cs)[ki.2]?)
 
 def linePolygonIntersections (poly : Poly) (a b : Pt) : Out (List Pt) :=
   match linePolygonIntersectionsT poly a b with
@@ -123,11 +134,18 @@ def linePolygonIntersections (poly : Poly) (a b : Pt) : Out (List Pt) :=
 
 /-! ### mulgrid.column_track -/
 
+/-- one entry `(col, entry point, exit point)` of the track; `sin`, `sout` are the parameters of the
+    two points along the line (`point = line[0] + s·(line[1] − line[0])`), so that
+    `track_dist(point) = |s|·‖line‖` -/
 structure Seg where
   col : Nat
   pin : Pt
   pout : Pt
-  tin : Rat     -- |parameter| of the entry point: `dist` up to the factor ‖line‖
+  sin : Rat
+  sout : Rat
+
+/-- `dist` (entry distance) up to the factor ‖line‖ -/
+def Seg.tin (s : Seg) : Rat := s.sin.abs
 
 abbrev TrackOut := Out (List Seg)
 
@@ -143,6 +161,23 @@ def longEnough (poly : Poly) (L2 tin tout : Rat) : Out Bool :=
   if (lhs - rhs).abs ≤ rhs / 1000000 then .unstable "clip-threshold"
   else .ok (decide (lhs > rhs))
 
+/-- the `else:` branch of the loop body for one column: the entry it appends, if any
+    (`isStart` : `col == start_col`, `isEnd` : `col == end_col`) -/
+def colSeg (g : Geo) (a b : Pt) (ci : Nat) (isStart isEnd : Bool) : Out (Option Seg) :=
+  match linePolygonIntersectionsT (g.poly ci) a b with
+  | .unstable w => .unstable w
+  | .ok [] => .ok none
+  | .ok (p0 :: ps) =>
+    let plast := (p0 :: ps).getLast?.getD p0
+    let io : Cross × Cross :=
+      if isStart then (⟨a, 0⟩, plast)
+      else if isEnd then (p0, ⟨b, 1⟩)
+      else (p0, plast)
+    match longEnough (g.poly ci) (distSq a b) io.1.t io.2.t with
+    | .unstable w => .unstable w
+    | .ok true => .ok (some ⟨ci, io.1.pt, io.2.pt, io.1.t, io.2.t⟩)
+    | .ok false => .ok none
+
 /-- the `for col in self.columnlist` loop (with its `break`) -/
 def trackLoop (g : Geo) (a b : Pt) : List Nat → TState → Out TState
   | [], st => .ok st
@@ -154,21 +189,12 @@ def trackLoop (g : Geo) (a b : Pt) : List Nat → TState → Out TState
       let st1 := if st.startCol.isNone && g.containsPoint ci a then { st with startCol := some ci } else st
       let st2 := if st1.endCol.isNone && g.containsPoint ci b then { st1 with endCol := some ci } else st1
       if st2.startCol == some ci && st2.endCol == some ci then
-        .ok { st2 with track := st2.track ++ [⟨ci, a, b, 0⟩] }          -- `break`
+        .ok { st2 with track := st2.track ++ [⟨ci, a, b, 0, 1⟩] }          -- `break`
       else
-        match linePolygonIntersectionsT (g.poly ci) a b with
+        match colSeg g a b ci (st2.startCol == some ci) (st2.endCol == some ci) with
         | .unstable w => .unstable w
-        | .ok [] => trackLoop g a b rest st2
-        | .ok (p0 :: ps) =>
-          let plast := (p0 :: ps).getLast?.getD p0
-          let (pin, pout) : Cross × Cross :=
-            if st2.startCol == some ci then (⟨a, 0⟩, plast)
-            else if st2.endCol == some ci then (p0, ⟨b, 1⟩)
-            else (p0, plast)
-          match longEnough (g.poly ci) (distSq a b) pin.t pout.t with
-          | .unstable w => .unstable w
-          | .ok true => trackLoop g a b rest { st2 with track := st2.track ++ [⟨ci, pin.pt, pout.pt, pin.t.abs⟩] }
-          | .ok false => trackLoop g a b rest st2
+        | .ok none => trackLoop g a b rest st2
+        | .ok (some s) => trackLoop g a b rest { st2 with track := st2.track ++ [s] }
 
 /-- two entry distances too close for `argsort` to be reproducible -/
 def sortTie (l : List Seg) : Bool :=
